@@ -1,6 +1,7 @@
 package main
 
 import (
+	"fmt"
 	"sort"
 	"time"
 
@@ -190,6 +191,7 @@ func scPrice(ps ParamSet, p1pricing, p2pricing string, tmpls []Template, o Alpha
 // S-BIND
 
 var tSlash = Template{Name: "slash", Consumer: "C1", Service: "a", Providers: []string{"P1"}, Cap: 25, Timeout: 1}
+var tSlashSuper = Template{Name: "slashsuper", Consumer: "C2", Service: "a", Providers: []string{"P1"}, Cap: 25, Timeout: 1, Super: true}
 var tSlash3 = Template{Name: "slash3", Consumer: "C1", Service: "a", Providers: []string{"P1"}, Cap: 25, Timeout: 3}
 var tSlash2 = Template{Name: "slash2", Consumer: "C1", Service: "a", Providers: []string{"P1", "P2"}, Cap: 25, Timeout: 1, Repeated: true, Freq: 1, Total: 2}
 
@@ -440,11 +442,15 @@ func scHuge(ps ParamSet, depth, blocks, msgs int) *Scenario {
 	sc := &Scenario{
 		Name: "S-HUGE", Params: ps,
 		Funds: []Funding{{O1, -36}, {O2, -36}, {C1, -36}, {C2, 5}}, Extra: allAccounts, // 10^36 each
-		Setup: []Action{actDefine("a", "AU"), actBindBig("a", "P1", "O1", d63, p63, 1), actBindBig("a", "P2", "O2", d100, p100, 1)},
+		Setup: []Action{actDefine("a", "AU"), actBindBig("a", "P1", "O1", d63, p63, 1), actBindBig("a", "P2", "O2", d100, p100, 1),
+			// 10^20 with a time and a volume promotion whose product has 20 decimals: 36-digit intermediate results
+			actBindBigText("a", "P3", "O2", "200000000000000000000", "100000000000000000000", fmt.Sprintf(`{"price":"100000000000000000000stake","promotions_by_time":[{"start_time":"%s","end_time":"%s","discount":"0.3333333333"}],"promotions_by_volume":[{"volume":1,"discount":"0.3333333333"}]}`,
+				T0.Format("2006-01-02T15:04:05Z"), T0.Add(timeSec(3600)).Format("2006-01-02T15:04:05Z")), 1)},
 		Templates: []Template{
 			{Name: "huge63", Consumer: "C1", Service: "a", Providers: []string{"P1"}, CapBig: p63, Timeout: 1, Repeated: true, Freq: 1, Total: 2},
 			{Name: "huge100", Consumer: "C1", Service: "a", Providers: []string{"P1", "P2"}, CapBig: p100, Timeout: 1},
 			{Name: "hugepoor", Consumer: "C2", Service: "a", Providers: []string{"P1"}, CapBig: p100, Timeout: 1},
+			{Name: "hugepromo", Consumer: "C1", Service: "a", Providers: []string{"P3"}, CapBig: "100000000000000000000", Timeout: 1, Repeated: true, Freq: 1, Total: 2},
 			{Name: "hugesuper", Consumer: "C2", Service: "a", Providers: []string{"P2"}, CapBig: p100, Timeout: 1, Super: true},
 		},
 		Alpha: lifeAlpha(AlphaOpts{RespKinds: []string{"ok", "bad"}, Withdraw: []string{"O1:", "O2:P2"},
@@ -487,6 +493,15 @@ func scModRestart(ps ParamSet, tmpls []Template, o AlphaOpts, depth, blocks, msg
 	sc := scMod(ps, tmpls, o, depth, blocks, msgs)
 	sc.Name = "S-MOD(restart in callback)"
 	sc.Rig.ReentrantRestart = true
+	return sc
+}
+
+// scModPauseSiblings: S-MOD where the other module, told that one of its contexts was paused for lack of funds, pauses
+// its other contexts from inside that state callback.
+func scModPauseSiblings(ps ParamSet, tmpls []Template, o AlphaOpts, depth, blocks, msgs int) *Scenario {
+	sc := scMod(ps, tmpls, o, depth, blocks, msgs)
+	sc.Name = "S-MOD(pause siblings in callback)"
+	sc.Rig.ReentrantPauseSiblings = true
 	return sc
 }
 
